@@ -1,3 +1,929 @@
-(* Proofs about model/Lease.v (C18, C19). *)
+(* Proofs about lib/EtcdKV.v and model/Lease.v (C18, C19).
+
+   The central result is [inv_run]: an invariant that ties every manager's local
+   state to the etcd contents holds in every state reachable by any event list
+   (guarded Release).  Single ownership, safety of Release and the produce-path
+   theorems are corollaries. *)
+From Coq Require Import ZifyBool.
 From KS Require Import lib.Base lib.Strings lib.EtcdKV model.Lease.
 Open Scope Z_scope.
+
+(* ------------------------------------------------------------------ byte strings *)
+
+Lemma bytes_eq_dec (a b : bytes) : {a = b} + {a <> b}.
+Proof.
+  destruct (bytes_eqb a b) eqn:E; [left; now apply bytes_eqb_eq|right; now apply bytes_eqb_neq].
+Qed.
+
+Lemma bytes_eqb_false_of_neq a b : a <> b -> bytes_eqb a b = false.
+Proof. apply bytes_eqb_neq. Qed.
+
+Lemma bytes_eqb_sym a b : bytes_eqb a b = bytes_eqb b a.
+Proof.
+  destruct (bytes_eqb a b) eqn:E.
+  - apply bytes_eqb_eq in E. subst. now rewrite bytes_eqb_refl.
+  - apply bytes_eqb_neq in E. symmetry. apply bytes_eqb_neq. congruence.
+Qed.
+
+(* ------------------------------------------------------------------ association lists *)
+
+Section Alist.
+Context {V : Type}.
+Implicit Types (l : list (bytes * V)) (k : bytes).
+
+Lemma alookup_cons k k' (v : V) l :
+  alookup k ((k', v) :: l) = if bytes_eqb k k' then Some v else alookup k l.
+Proof. reflexivity. Qed.
+
+Lemma alookup_aremove_same k l : alookup k (aremove k l) = None.
+Proof.
+  induction l as [|[k' v] l IH]; cbn; [reflexivity|].
+  destruct (bytes_eqb k k') eqn:E; [exact IH|]. cbn. now rewrite E.
+Qed.
+
+Lemma alookup_aremove_other k k' l : k <> k' -> alookup k' (aremove k l) = alookup k' l.
+Proof.
+  intros N. induction l as [|[k2 v] l IH]; cbn; [reflexivity|].
+  destruct (bytes_eqb k k2) eqn:E.
+  - apply bytes_eqb_eq in E. subst k2. rewrite IH.
+    rewrite (bytes_eqb_false_of_neq k' k) by congruence. reflexivity.
+  - cbn. now rewrite IH.
+Qed.
+
+Lemma alookup_aset_same k (v : V) l : alookup k (aset k v l) = Some v.
+Proof. unfold aset. cbn. now rewrite bytes_eqb_refl. Qed.
+
+Lemma alookup_aset_other k k' (v : V) l : k <> k' -> alookup k' (aset k v l) = alookup k' l.
+Proof.
+  intros N. unfold aset. cbn. rewrite (bytes_eqb_false_of_neq k' k) by congruence.
+  now apply alookup_aremove_other.
+Qed.
+
+Lemma alookup_In k (v : V) l : alookup k l = Some v -> In (k, v) l.
+Proof.
+  induction l as [|[k' v'] l IH]; cbn; [discriminate|].
+  destruct (bytes_eqb k k') eqn:E; intros H.
+  - apply bytes_eqb_eq in E. inversion H. subst. now left.
+  - right. now apply IH.
+Qed.
+
+Lemma In_aremove k k' (v : V) l : In (k', v) (aremove k l) -> In (k', v) l /\ k' <> k.
+Proof.
+  induction l as [|[k2 v2] l IH]; cbn; [tauto|].
+  destruct (bytes_eqb k k2) eqn:E.
+  - intros H. apply IH in H. tauto.
+  - cbn. intros [H|H].
+    + inversion H; subst. split; [now left|]. apply bytes_eqb_neq in E. congruence.
+    + apply IH in H. tauto.
+Qed.
+
+Lemma In_aremove1 k (x : bytes * V) l : In x (aremove1 k l) -> In x l.
+Proof.
+  induction l as [|[k2 v2] l IH]; cbn; [tauto|].
+  destruct (bytes_eqb k k2); cbn; [tauto|]. intros [H|H]; [now left|right; now apply IH].
+Qed.
+End Alist.
+
+(* ------------------------------------------------------------------ etcd *)
+
+Definition eput (e : etcd) (k : bytes) (x : kv) : etcd :=
+  mkEtcd (e_rev e + 1) ((k, x) :: e_kvs e) (e_leases e) (e_next_lease e).
+Definition edel (e : etcd) (k : bytes) : etcd :=
+  mkEtcd (e_rev e + 1) (aremove k (e_kvs e)) (e_leases e) (e_next_lease e).
+
+Lemma etcd_eta e : mkEtcd (e_rev e) (e_kvs e) (e_leases e) (e_next_lease e) = e.
+Proof. now destruct e. Qed.
+
+Lemma get_eput e k x k' :
+  get (eput e k x) k' = if bytes_eqb k' k then (if visible e x then Some x else None) else get e k'.
+Proof. unfold get, eput. cbn. destruct (bytes_eqb k' k); reflexivity. Qed.
+
+Lemma get_edel_same e k : get (edel e k) k = None.
+Proof. unfold get, edel. cbn. now rewrite alookup_aremove_same. Qed.
+
+Lemma get_edel_other e k k' : k <> k' -> get (edel e k) k' = get e k'.
+Proof. intros N. unfold get, edel. cbn. now rewrite alookup_aremove_other. Qed.
+
+Lemma get_In e k x : get e k = Some x -> In (k, x) (e_kvs e) /\ visible e x = true.
+Proof.
+  unfold get. destruct (alookup k (e_kvs e)) as [y|] eqn:E; [|discriminate].
+  destruct (visible e y) eqn:Vy; [|discriminate]. intros H. inversion H; subst.
+  split; [now apply alookup_In|assumption].
+Qed.
+
+Lemma lease_live_filter e l l' :
+  existsb (Z.eqb l') (filter (fun x => negb (x =? l)) (e_leases e)) = lease_live e l' && negb (l' =? l).
+Proof.
+  unfold lease_live. induction (e_leases e) as [|a ls IH]; cbn; [reflexivity|].
+  destruct (a =? l) eqn:E1; cbn; rewrite IH; destruct (l' =? a) eqn:E2; cbn; try reflexivity; lia.
+Qed.
+
+Lemma lease_live_revoke e l l' : lease_live (revoke e l) l' = lease_live e l' && negb (l' =? l).
+Proof.
+  unfold revoke. destruct (lease_live e l) eqn:L.
+  - unfold lease_live at 1. cbn. apply lease_live_filter.
+  - destruct (l' =? l) eqn:E; cbn; [|now rewrite andb_true_r].
+    assert (l' = l) by lia. subst. now rewrite L.
+Qed.
+
+Lemma e_kvs_revoke e l : e_kvs (revoke e l) = e_kvs e.
+Proof. unfold revoke. destruct (lease_live e l); reflexivity. Qed.
+
+Lemma e_next_revoke e l : e_next_lease (revoke e l) = e_next_lease e.
+Proof. unfold revoke. destruct (lease_live e l); reflexivity. Qed.
+
+Lemma e_rev_revoke e l : e_rev e <= e_rev (revoke e l).
+Proof. unfold revoke. destruct (lease_live e l); cbn; [|lia]. destruct (lease_has_keys e l); lia. Qed.
+
+(* revoking hides exactly the visible keys attached to the lease *)
+Lemma get_revoke e l k :
+  get (revoke e l) k =
+  match get e k with
+  | Some x => if (kv_lease x =? l) && negb (kv_lease x =? 0) then None else Some x
+  | None => None
+  end.
+Proof.
+  unfold get. rewrite e_kvs_revoke. destruct (alookup k (e_kvs e)) as [x|]; [|reflexivity].
+  unfold visible. rewrite lease_live_revoke.
+  destruct (kv_lease x =? 0) eqn:Z0; cbn.
+  - rewrite Z0. cbn. now rewrite andb_false_r.
+  - destruct (lease_live e (kv_lease x)); cbn; [|reflexivity].
+    rewrite Z0. cbn. rewrite andb_true_r. destruct (kv_lease x =? l); reflexivity.
+Qed.
+
+(* the three transactions issued by the lease manager *)
+Ltac txn_cbn := cbn [negb forallb op_ok andb fold_left apply_op e_rev e_kvs e_leases e_next_lease app eval_cmp fst snd].
+Lemma txn_acquire e k b l :
+  (forall x, get e k = Some x -> 0 < kv_create x) ->
+  txn e [CmpCreate k 0] [OpPut k b l] [OpGet k] =
+  match get e k with
+  | None =>
+      if (l =? 0) || lease_live e l
+      then (eput e k (mkKV b l (e_rev e + 1) (e_rev e + 1)), mkTxnResult false true [] (e_rev e + 1))
+      else (e, mkTxnResult true false [] (e_rev e))
+  | Some x => (e, mkTxnResult false false [Some x] (e_rev e))
+  end.
+Proof.
+  intros Hc. destruct e as [rv kvs ls nx]. unfold txn, eput. txn_cbn.
+  destruct (get _ k) as [x|] eqn:G.
+  - specialize (Hc x eq_refl). replace (kv_create x =? 0) with false by lia.
+    txn_cbn. rewrite G. reflexivity.
+  - cbn [Z.eqb]. txn_cbn. rewrite andb_true_r.
+    destruct ((l =? 0) || lease_live _ l); txn_cbn; [|reflexivity].
+    rewrite G. reflexivity.
+Qed.
+
+Lemma txn_reacquire e k b l :
+  txn e [CmpValue k b] [OpPut k b l] [] =
+  match get e k with
+  | Some x =>
+      if bytes_eqb (kv_val x) b then
+        if (l =? 0) || lease_live e l
+        then (eput e k (mkKV b l (kv_create x) (e_rev e + 1)), mkTxnResult false true [] (e_rev e + 1))
+        else (e, mkTxnResult true false [] (e_rev e))
+      else (e, mkTxnResult false false [] (e_rev e))
+  | None => (e, mkTxnResult false false [] (e_rev e))
+  end.
+Proof.
+  destruct e as [rv kvs ls nx]. unfold txn, eput. txn_cbn.
+  destruct (get _ k) as [x|] eqn:G.
+  - destruct (bytes_eqb (kv_val x) b); txn_cbn; [|reflexivity].
+    rewrite andb_true_r. destruct ((l =? 0) || lease_live _ l); txn_cbn; [|reflexivity].
+    rewrite G. reflexivity.
+  - txn_cbn. reflexivity.
+Qed.
+
+Lemma txn_release e k rev :
+  fst (txn e [CmpMod k rev] [OpDel k] []) =
+  match get e k with
+  | Some x => if kv_mod x =? rev then edel e k else e
+  | None => e
+  end.
+Proof.
+  destruct e as [rv kvs ls nx]. unfold txn, edel. txn_cbn.
+  destruct (get _ k) as [x|] eqn:G.
+  - destruct (kv_mod x =? rev); txn_cbn; [|reflexivity]. rewrite G. reflexivity.
+  - destruct (0 =? rev); txn_cbn; [rewrite G|]; reflexivity.
+Qed.
+
+Lemma delete_spec e k :
+  delete e k = match get e k with Some _ => edel e k | None => e end.
+Proof.
+  destruct e as [rv kvs ls nx]. unfold delete, txn, edel. txn_cbn.
+  destruct (get _ k); reflexivity.
+Qed.
+
+(* ------------------------------------------------------------------ the invariant *)
+
+Definition wf_etcd (e : etcd) : Prop :=
+  0 < e_rev e /\ 0 < e_next_lease e /\
+  (forall l, lease_live e l = true -> 0 < l < e_next_lease e) /\
+  (forall k x, In (k, x) (e_kvs e) -> kv_lease x < e_next_lease e /\ 0 < kv_create x).
+
+Definition flight_sess (f : flight) : Z :=
+  match f with FTxn s | FReacq s | FCommit s _ => s end.
+
+(* key k is visible and was written by broker b under lease S at revision rev *)
+Definition bound_by (e : etcd) (k b : bytes) (S rev : Z) : Prop :=
+  exists x, get e k = Some x /\ kv_val x = b /\ kv_lease x = S /\ kv_mod x = rev.
+
+(* what manager m of broker b may believe about resource r, relative to the store *)
+Record local_r (cfg : config) (e : etcd) (b : bytes) (m : mgr) (r : bytes) : Prop := mkLocalR {
+  lr_owned : forall rev, alookup r (m_owned m) = Some rev ->
+             exists S, m_session m = Some S /\ bound_by e (lease_key cfg r) b S rev;
+  lr_commit : forall S rev, alookup r (m_flights m) = Some (FCommit S rev) -> m_session m = Some S ->
+              bound_by e (lease_key cfg r) b S rev;
+  lr_rel_val : forall rev x, In (r, rev) (m_rel m) -> get e (lease_key cfg r) = Some x ->
+               kv_mod x = rev -> kv_val x = b;
+  lr_rel_owned : forall rev rev', In (r, rev) (m_rel m) -> alookup r (m_owned m) = Some rev' -> rev' <> rev;
+  lr_rel_commit : forall rev S rev', In (r, rev) (m_rel m) ->
+                  alookup r (m_flights m) = Some (FCommit S rev') -> rev' <> rev;
+  lr_flight_not_owned : forall f, alookup r (m_flights m) = Some f -> alookup r (m_owned m) = None;
+  lr_owned_le : forall rev, alookup r (m_owned m) = Some rev -> rev <= e_rev e;
+  lr_rel_le : forall rev, In (r, rev) (m_rel m) -> rev <= e_rev e;
+  lr_commit_le : forall S rev, alookup r (m_flights m) = Some (FCommit S rev) -> rev <= e_rev e;
+  lr_flight_sess : forall f, alookup r (m_flights m) = Some f -> 0 < flight_sess f < e_next_lease e
+}.
+
+Definition local_m (e : etcd) (m : mgr) : Prop :=
+  forall S, m_session m = Some S -> 0 < S < e_next_lease e /\ lease_live e S = true.
+
+Definition inv (cfg : config) (s : state) : Prop :=
+  wf_etcd (s_etcd s) /\
+  (forall b r, local_r cfg (s_etcd s) b (get_mgr s b) r) /\
+  (forall b, local_m (s_etcd s) (get_mgr s b)) /\
+  (forall b b' S, m_session (get_mgr s b) = Some S -> m_session (get_mgr s b') = Some S -> b = b').
+
+Lemma lease_key_inj cfg r r' : lease_key cfg r = lease_key cfg r' -> r = r'.
+Proof. unfold lease_key. intros H. apply app_inv_head in H. now inversion H. Qed.
+
+Lemma get_mgr_set_same s e' b m : get_mgr (mkState e' (set_mgr s b m)) b = m.
+Proof. unfold get_mgr, set_mgr. cbn [s_mgrs]. now rewrite alookup_aset_same. Qed.
+
+Lemma get_mgr_set_other s e' b0 m b : b <> b0 -> get_mgr (mkState e' (set_mgr s b0 m)) b = get_mgr s b.
+Proof. intros N. unfold get_mgr, set_mgr. cbn [s_mgrs]. rewrite alookup_aset_other by congruence. reflexivity. Qed.
+
+(* transfer of the per-resource invariant across a change of the store and of the parts
+   of the manager that do not concern r *)
+Lemma local_r_transfer cfg e e' b m m' r :
+  local_r cfg e b m r ->
+  alookup r (m_owned m') = alookup r (m_owned m) ->
+  alookup r (m_flights m') = alookup r (m_flights m) ->
+  (forall rev, In (r, rev) (m_rel m') -> In (r, rev) (m_rel m)) ->
+  m_session m' = m_session m ->
+  e_rev e <= e_rev e' -> e_next_lease e <= e_next_lease e' ->
+  (forall S x, m_session m = Some S -> get e (lease_key cfg r) = Some x -> kv_val x = b ->
+               kv_lease x = S -> get e' (lease_key cfg r) = Some x) ->
+  (forall x, get e' (lease_key cfg r) = Some x -> kv_mod x <= e_rev e -> get e (lease_key cfg r) = Some x) ->
+  local_r cfg e' b m' r.
+Proof.
+  intros [o1 o2 o3 o4 o5 o6 o7 o8 o9 o10] Ho Hf Hr Hs Hrev Hnx H7 H8.
+  constructor; rewrite ?Ho, ?Hf, ?Hs.
+  - intros rev A. destruct (o1 rev A) as (S & Se & x & G & V & L & M).
+    exists S. split; [assumption|]. exists x. repeat split; try assumption. eapply H7; eauto.
+  - intros S rev A Se. destruct (o2 S rev A Se) as (x & G & V & L & M).
+    exists x. repeat split; try assumption. eapply H7; eauto.
+  - intros rev x A G M. apply Hr in A. apply (o3 rev x A); [|assumption].
+    apply H8; [assumption|]. specialize (o8 rev A). lia.
+  - intros rev rev' A. apply Hr in A. now apply o4.
+  - intros rev S rev' A. apply Hr in A. now apply (o5 rev S rev').
+  - assumption.
+  - intros rev A. specialize (o7 rev A). lia.
+  - intros rev A. apply Hr in A. specialize (o8 rev A). lia.
+  - intros S rev A. specialize (o9 S rev A). lia.
+  - intros f A. specialize (o10 f A). lia.
+Qed.
+
+(* a put at the next revision: harmless for (b, r) unless it overwrites a binding of b *)
+Lemma local_r_eput cfg e b m m' r k0 x0 :
+  local_r cfg e b m r ->
+  alookup r (m_owned m') = alookup r (m_owned m) ->
+  alookup r (m_flights m') = alookup r (m_flights m) ->
+  (forall rev, In (r, rev) (m_rel m') -> In (r, rev) (m_rel m)) ->
+  m_session m' = m_session m ->
+  kv_mod x0 = e_rev e + 1 ->
+  (lease_key cfg r = k0 -> forall x, get e k0 = Some x -> kv_val x <> b) ->
+  local_r cfg (eput e k0 x0) b m' r.
+Proof.
+  intros L Ho Hf Hr Hs Hm Hk.
+  apply (local_r_transfer cfg e _ b m m' r L Ho Hf Hr Hs); cbn [eput e_rev e_next_lease]; try lia.
+  - intros S x Se G V Lx. rewrite get_eput. destruct (bytes_eqb (lease_key cfg r) k0) eqn:E; [|assumption].
+    apply bytes_eqb_eq in E. exfalso. apply (Hk E x); [now rewrite <- E|assumption].
+  - intros x. rewrite get_eput. destruct (bytes_eqb (lease_key cfg r) k0) eqn:E; [|tauto].
+    destruct (visible e x0); [|discriminate]. intros H. inversion H; subst. lia.
+Qed.
+
+Lemma local_r_edel cfg e b m m' r k0 :
+  local_r cfg e b m r ->
+  alookup r (m_owned m') = alookup r (m_owned m) ->
+  alookup r (m_flights m') = alookup r (m_flights m) ->
+  (forall rev, In (r, rev) (m_rel m') -> In (r, rev) (m_rel m)) ->
+  m_session m' = m_session m ->
+  (lease_key cfg r = k0 -> forall x, get e k0 = Some x -> kv_val x <> b) ->
+  local_r cfg (edel e k0) b m' r.
+Proof.
+  intros L Ho Hf Hr Hs Hk.
+  apply (local_r_transfer cfg e _ b m m' r L Ho Hf Hr Hs); cbn [edel e_rev e_next_lease]; try lia.
+  - intros S x Se G V Lx. destruct (bytes_eq_dec k0 (lease_key cfg r)) as [E|N].
+    + exfalso. apply (Hk (eq_sym E) x); [now rewrite E|assumption].
+    + now rewrite get_edel_other.
+  - intros x. destruct (bytes_eq_dec k0 (lease_key cfg r)) as [E|N].
+    + rewrite <- E, get_edel_same. discriminate.
+    + rewrite get_edel_other by assumption. tauto.
+Qed.
+
+Lemma local_r_revoke cfg e b m m' r l :
+  local_r cfg e b m r ->
+  alookup r (m_owned m') = alookup r (m_owned m) ->
+  alookup r (m_flights m') = alookup r (m_flights m) ->
+  (forall rev, In (r, rev) (m_rel m') -> In (r, rev) (m_rel m)) ->
+  m_session m' = m_session m ->
+  (forall S, m_session m = Some S -> S <> l) ->
+  local_r cfg (revoke e l) b m' r.
+Proof.
+  intros L Ho Hf Hr Hs Hl.
+  apply (local_r_transfer cfg e _ b m m' r L Ho Hf Hr Hs).
+  - apply e_rev_revoke.
+  - rewrite e_next_revoke. lia.
+  - intros S x Se G V Lx. rewrite get_revoke, G. specialize (Hl S Se).
+    replace (kv_lease x =? l) with false by lia. reflexivity.
+  - intros x. rewrite get_revoke. destruct (get e (lease_key cfg r)) as [y|]; [|discriminate].
+    destruct ((kv_lease y =? l) && negb (kv_lease y =? 0)); [discriminate|tauto].
+Qed.
+
+Lemma local_r_same cfg e b m m' r :
+  local_r cfg e b m r ->
+  alookup r (m_owned m') = alookup r (m_owned m) ->
+  alookup r (m_flights m') = alookup r (m_flights m) ->
+  (forall rev, In (r, rev) (m_rel m') -> In (r, rev) (m_rel m)) ->
+  m_session m' = m_session m ->
+  local_r cfg e b m' r.
+Proof.
+  intros L Ho Hf Hr Hs.
+  apply (local_r_transfer cfg e e b m m' r L Ho Hf Hr Hs); try lia; tauto.
+Qed.
+
+Lemma wf_eput e k x :
+  wf_etcd e -> kv_lease x < e_next_lease e -> 0 < kv_create x -> wf_etcd (eput e k x).
+Proof.
+  intros (W0 & W1 & W2 & W3) Hl Hc. unfold wf_etcd, eput. cbn. repeat split; try lia.
+  - apply (W2 l H).
+  - apply (W2 l H).
+  - destruct H as [H|H]; [inversion H; subst; lia|apply (W3 _ _ H)].
+  - destruct H as [H|H]; [inversion H; subst; lia|apply (W3 _ _ H)].
+Qed.
+
+Lemma wf_edel e k : wf_etcd e -> wf_etcd (edel e k).
+Proof.
+  intros (W0 & W1 & W2 & W3). unfold wf_etcd, edel. cbn. repeat split; try lia.
+  - apply (W2 l H).
+  - apply (W2 l H).
+  - apply In_aremove in H. apply (W3 _ _ (proj1 H)).
+  - apply In_aremove in H. apply (W3 _ _ (proj1 H)).
+Qed.
+
+Lemma wf_revoke e l : wf_etcd e -> wf_etcd (revoke e l).
+Proof.
+  intros (W0 & W1 & W2 & W3). unfold wf_etcd. rewrite e_next_revoke, e_kvs_revoke.
+  pose proof (e_rev_revoke e l). repeat split; try lia.
+  - rewrite lease_live_revoke in H0. apply andb_true_iff in H0. apply (W2 l0 (proj1 H0)).
+  - rewrite lease_live_revoke in H0. apply andb_true_iff in H0. apply (W2 l0 (proj1 H0)).
+  - apply (W3 _ _ H0).
+  - apply (W3 _ _ H0).
+Qed.
+
+Lemma local_m_mono e e' m :
+  local_m e m -> e_next_lease e <= e_next_lease e' ->
+  (forall S, m_session m = Some S -> lease_live e S = true -> lease_live e' S = true) ->
+  local_m e' m.
+Proof.
+  intros Lm Hn Hl S Se. destruct (Lm S Se) as [B Lv]. split; [lia|]. now apply Hl.
+Qed.
+
+Lemma inv_update cfg s b0 m' e' :
+  inv cfg s ->
+  wf_etcd e' ->
+  (forall r, local_r cfg e' b0 m' r) ->
+  local_m e' m' ->
+  (forall b r, b <> b0 -> local_r cfg e' b (get_mgr s b) r) ->
+  (forall b, b <> b0 -> local_m e' (get_mgr s b)) ->
+  (forall b S, b <> b0 -> m_session (get_mgr s b) = Some S -> m_session m' <> Some S) ->
+  inv cfg (mkState e' (set_mgr s b0 m')).
+Proof.
+  intros (W & L & M & G) W' L0 M0 Lo Mo Go. unfold inv. cbn [s_etcd].
+  split; [exact W'|]. split; [|split].
+  - intros b r. destruct (bytes_eq_dec b b0) as [->|N].
+    + rewrite get_mgr_set_same. apply L0.
+    + rewrite get_mgr_set_other by assumption. now apply Lo.
+  - intros b. destruct (bytes_eq_dec b b0) as [->|N].
+    + rewrite get_mgr_set_same. apply M0.
+    + rewrite get_mgr_set_other by assumption. now apply Mo.
+  - intros b b' S. destruct (bytes_eq_dec b b0) as [->|N]; destruct (bytes_eq_dec b' b0) as [->|N'];
+      rewrite ?get_mgr_set_same; try rewrite (get_mgr_set_other s e' b0 m' b) by assumption;
+      try rewrite (get_mgr_set_other s e' b0 m' b') by assumption; intros A B.
+    + reflexivity.
+    + exfalso. apply (Go b' S N' B A).
+    + exfalso. apply (Go b S N A B).
+    + apply (G b b' S A B).
+Qed.
+
+(* when only manager b0 changes and the store does not *)
+Lemma inv_update_local cfg s b0 m' :
+  inv cfg s ->
+  (forall r, local_r cfg (s_etcd s) b0 m' r) ->
+  local_m (s_etcd s) m' ->
+  (m_session m' = m_session (get_mgr s b0) \/ m_session m' = None) ->
+  inv cfg (mkState (s_etcd s) (set_mgr s b0 m')).
+Proof.
+  intros I L0 M0 Hs. pose proof I as (W & L & M & G).
+  apply inv_update; try assumption.
+  - intros b r _. apply L.
+  - intros b _. apply M.
+  - intros b S N A B. destruct Hs as [Hs|Hs]; rewrite Hs in B; [|discriminate].
+    apply N. apply (G b b0 S A B).
+Qed.
+
+Ltac lr_fields H := destruct H as [o1 o2 o3 o4 o5 o6 o7 o8 o9 o10].
+Ltac lr_auto :=
+  intros; try discriminate; try congruence;
+  try (match goal with H : Some _ = Some _ |- _ => inversion H; subst; clear H end);
+  try discriminate; try congruence; eauto.
+Ltac mgr_cbn := cbn [with_flights m_closed m_session m_owned m_flights m_rel fresh_mgr].
+
+Lemma grant_get e k : wf_etcd e -> get (fst (grant e)) k = get e k.
+Proof.
+  intros (W0 & W1 & W2 & W3). unfold get, grant. cbn.
+  destruct (alookup k (e_kvs e)) as [x|] eqn:A; [|reflexivity].
+  apply alookup_In in A. destruct (W3 _ _ A) as [B _].
+  unfold visible, lease_live. cbn. replace (kv_lease x =? e_next_lease e) with false by lia. reflexivity.
+Qed.
+
+Lemma wf_grant e : wf_etcd e -> wf_etcd (fst (grant e)).
+Proof.
+  intros (W0 & W1 & W2 & W3). unfold wf_etcd, grant, lease_live. cbn. repeat split; try lia.
+  - destruct (l =? e_next_lease e) eqn:E; [lia|]. cbn in H. apply (W2 l H).
+  - destruct (l =? e_next_lease e) eqn:E; [lia|]. cbn in H. pose proof (W2 l H). lia.
+  - pose proof (W3 _ _ H). lia.
+  - apply (W3 _ _ H).
+Qed.
+
+Lemma inv_acqbegin cfg s b0 r0 : inv cfg s -> inv cfg (fst (step cfg s (AcqBegin b0 r0))).
+Proof.
+  intros I. pose proof I as (W & L & M & G). cbn [step].
+  destruct (m_closed (get_mgr s b0)) eqn:Cl; [exact I|].
+  destruct (alookup r0 (m_owned (get_mgr s b0))) eqn:Ow; [exact I|].
+  destruct (alookup r0 (m_flights (get_mgr s b0))) eqn:Fl; [exact I|].
+  destruct (m_session (get_mgr s b0)) as [l|] eqn:Se.
+  - cbn [fst]. apply inv_update_local; try assumption.
+    + intros r. destruct (bytes_eq_dec r0 r) as [<-|N].
+      * pose proof (L b0 r0) as Lr. lr_fields Lr.
+        constructor; mgr_cbn; rewrite ?alookup_aset_same, ?Ow; lr_auto.
+        -- cbn. apply (M b0 l Se).
+      * apply (local_r_same cfg _ b0 (get_mgr s b0)); mgr_cbn; try reflexivity; [apply L| |tauto].
+        now apply alookup_aset_other.
+    + intros S A. apply (M b0). exact A.
+    + left. reflexivity.
+  - destruct (grant (s_etcd s)) as [e' l] eqn:Gr. cbn [fst].
+    assert (E' : e' = fst (grant (s_etcd s))) by now rewrite Gr.
+    assert (El : l = e_next_lease (s_etcd s)) by (unfold grant in Gr; now inversion Gr).
+    assert (Nx : e_next_lease e' = e_next_lease (s_etcd s) + 1) by (subst e'; reflexivity).
+    assert (Rv : e_rev e' = e_rev (s_etcd s)) by (subst e'; reflexivity).
+    assert (Lv : forall S, lease_live e' S = (S =? l) || lease_live (s_etcd s) S)
+      by (intros S; subst e' l; reflexivity).
+    assert (Gt : forall k, get e' k = get (s_etcd s) k) by (intros k; subst e'; now apply grant_get).
+    assert (Tr : forall b r, local_r cfg (s_etcd s) b (get_mgr s b) r -> local_r cfg e' b (get_mgr s b) r).
+    { intros b r Lr. apply (local_r_transfer cfg (s_etcd s) e' b (get_mgr s b) (get_mgr s b) r Lr);
+        try reflexivity; try tauto; try lia.
+      - intros S x _ A _ _. now rewrite Gt.
+      - intros x A _. now rewrite <- Gt. }
+    apply inv_update; try assumption.
+    + subst e'. now apply wf_grant.
+    + intros r. pose proof (Tr b0 r (L b0 r)) as Lr. lr_fields Lr. rewrite Se in *.
+      destruct (bytes_eq_dec r0 r) as [<-|N].
+      * constructor; mgr_cbn; rewrite ?alookup_aset_same, ?Ow; lr_auto.
+        -- cbn. destruct W as (_ & W1 & _). lia.
+      * constructor; mgr_cbn; rewrite ?(alookup_aset_other r0 r) by assumption; try assumption.
+        -- intros rev A. destruct (o1 rev A) as (S & D & _). discriminate.
+        -- intros S rev A B. inversion B; subst S. specialize (o10 _ A). cbn in o10.
+           pose proof (lr_flight_sess _ _ _ _ _ (L b0 r) _ A) as F. cbn in F. lia.
+    + intros S A. cbn in A. inversion A; subst S. split; [destruct W as (_ & W1 & _); lia|].
+      rewrite Lv. replace (l =? l) with true by lia. reflexivity.
+    + intros b r _. apply Tr, L.
+    + intros b _. apply (local_m_mono (s_etcd s)); [apply M|lia|].
+      intros S _ A. rewrite Lv, A. now rewrite orb_true_r.
+    + intros b S N A B. cbn in B. inversion B; subst S.
+      destruct (M b l A) as [Bd _]. lia.
+Qed.
+
+(* the flight of r0 moves to a state that is not FCommit, or ends; nothing else changes *)
+Lemma local_flights_update cfg e b m r0 fl' :
+  (forall r, local_r cfg e b m r) ->
+  (forall r, r0 <> r -> alookup r fl' = alookup r (m_flights m)) ->
+  match alookup r0 fl' with
+  | Some (FCommit _ _) => False
+  | Some f => 0 < flight_sess f < e_next_lease e /\ alookup r0 (m_owned m) = None
+  | None => True
+  end ->
+  forall r, local_r cfg e b (with_flights m fl') r.
+Proof.
+  intros L Ho H0 r. destruct (bytes_eq_dec r0 r) as [<-|N].
+  - pose proof (L r0) as Lr. lr_fields Lr. constructor; mgr_cbn; try assumption.
+    + intros S rev A. rewrite A in H0. contradiction.
+    + intros rev S rev' _ A. rewrite A in H0. contradiction.
+    + intros f A. rewrite A in H0. destruct f; tauto.
+    + intros S rev A. rewrite A in H0. contradiction.
+    + intros f A. rewrite A in H0. destruct f; tauto.
+  - apply (local_r_same cfg e b m); mgr_cbn; try reflexivity; [apply L| |tauto]. now apply Ho.
+Qed.
+
+Lemma inv_flights_update cfg s b0 r0 fl' :
+  inv cfg s ->
+  (forall r, r0 <> r -> alookup r fl' = alookup r (m_flights (get_mgr s b0))) ->
+  match alookup r0 fl' with
+  | Some (FCommit _ _) => False
+  | Some f => 0 < flight_sess f < e_next_lease (s_etcd s) /\ alookup r0 (m_owned (get_mgr s b0)) = None
+  | None => True
+  end ->
+  inv cfg (mkState (s_etcd s) (set_mgr s b0 (with_flights (get_mgr s b0) fl'))).
+Proof.
+  intros I Ho H0. pose proof I as (W & L & M & G).
+  apply inv_update_local; try assumption.
+  - apply (local_flights_update cfg _ b0 _ r0); try assumption. intros r. apply L.
+  - apply M.
+  - now left.
+Qed.
+
+(* b0's acquire / reacquire transaction writes the key *)
+Lemma inv_put cfg s b0 r0 l cr :
+  inv cfg s ->
+  (alookup r0 (m_flights (get_mgr s b0)) = Some (FTxn l) \/
+   alookup r0 (m_flights (get_mgr s b0)) = Some (FReacq l)) ->
+  (l =? 0) || lease_live (s_etcd s) l = true ->
+  0 < cr ->
+  (forall x, get (s_etcd s) (lease_key cfg r0) = Some x -> kv_val x = b0) ->
+  inv cfg (mkState (eput (s_etcd s) (lease_key cfg r0) (mkKV b0 l cr (e_rev (s_etcd s) + 1)))
+                   (set_mgr s b0 (with_flights (get_mgr s b0)
+                      (aset r0 (FCommit l (e_rev (s_etcd s) + 1)) (m_flights (get_mgr s b0)))))).
+Proof.
+  intros I Fl Lo Hcr Hv. pose proof I as (W & L & M & G).
+  assert (Fs : 0 < l < e_next_lease (s_etcd s)).
+  { destruct Fl as [Fl|Fl]; apply (lr_flight_sess _ _ _ _ _ (L b0 r0)) in Fl; exact Fl. }
+  assert (Ow : alookup r0 (m_owned (get_mgr s b0)) = None).
+  { destruct Fl as [Fl|Fl]; apply (lr_flight_not_owned _ _ _ _ _ (L b0 r0)) in Fl; exact Fl. }
+  assert (Nc : forall S rev, alookup r0 (m_flights (get_mgr s b0)) <> Some (FCommit S rev)).
+  { intros S rev. destruct Fl as [Fl|Fl]; rewrite Fl; discriminate. }
+  apply inv_update; try assumption.
+  - apply wf_eput; cbn; try assumption; lia.
+  - intros r. destruct (bytes_eq_dec r0 r) as [<-|N].
+    + pose proof (L b0 r0) as Lr. lr_fields Lr.
+      constructor; mgr_cbn; rewrite ?alookup_aset_same, ?Ow; cbn [eput e_rev e_next_lease]; lr_auto.
+      * exists (mkKV b0 S cr (e_rev (s_etcd s) + 1)). rewrite get_eput, bytes_eqb_refl.
+        unfold visible. cbn [kv_lease]. rewrite Lo. repeat split.
+      * revert H0. rewrite get_eput, bytes_eqb_refl. destruct (visible _ _); [|discriminate].
+        intros A. inversion A; subst x. reflexivity.
+      * specialize (o8 _ H). lia.
+      * specialize (o8 _ H). lia.
+      * lia.
+    + apply (local_r_eput cfg _ b0 (get_mgr s b0)); mgr_cbn; try reflexivity; try tauto; [apply L| |].
+      * now apply alookup_aset_other.
+      * intros E. apply lease_key_inj in E. congruence.
+  - apply (local_m_mono (s_etcd s)); [apply M|cbn; lia|tauto].
+  - intros b r N. apply (local_r_eput cfg _ b (get_mgr s b)); try reflexivity; try tauto; [apply L|].
+    intros _ x A. rewrite (Hv x A). congruence.
+  - intros b N. apply (local_m_mono (s_etcd s)); [apply M|cbn; lia|tauto].
+  - intros b S N A. mgr_cbn. intros B. apply N. apply (G b b0 S A B).
+Qed.
+
+Lemma inv_acqtxn cfg s b0 r0 : inv cfg s -> inv cfg (fst (step cfg s (AcqTxn b0 r0))).
+Proof.
+  intros I. pose proof I as (W & L & M & G). cbn [step].
+  destruct (alookup r0 (m_flights (get_mgr s b0))) as [[l|l|l rv]|] eqn:Fl; try exact I.
+  rewrite txn_acquire.
+  2: { intros x A. apply get_In in A. destruct W as (_ & _ & _ & W3). apply (W3 _ _ (proj1 A)). }
+  pose proof (lr_flight_sess _ _ _ _ _ (L b0 r0) _ Fl) as Fs. cbn in Fs.
+  pose proof (lr_flight_not_owned _ _ _ _ _ (L b0 r0) _ Fl) as Ow.
+  destruct (get (s_etcd s) (lease_key cfg r0)) as [x|] eqn:Gk.
+  - cbn [t_err t_succ t_gets]. destruct (bytes_eqb (kv_val x) b0) eqn:Ev; cbn [fst].
+    + apply (inv_flights_update cfg s b0 r0); try assumption.
+      * intros r N. now apply alookup_aset_other.
+      * rewrite alookup_aset_same. cbn. tauto.
+    + apply (inv_flights_update cfg s b0 r0); try assumption.
+      * intros r N. now apply alookup_aremove_other.
+      * now rewrite alookup_aremove_same.
+  - destruct ((l =? 0) || lease_live (s_etcd s) l) eqn:Lo; cbn [t_err t_succ t_rev fst].
+    + apply inv_put; try assumption; [now left| |].
+      * destruct W as (W0 & _). lia.
+      * intros x A. congruence.
+    + apply (inv_flights_update cfg s b0 r0); try assumption.
+      * intros r N. now apply alookup_aremove_other.
+      * now rewrite alookup_aremove_same.
+Qed.
+
+Lemma inv_reacqtxn cfg s b0 r0 : inv cfg s -> inv cfg (fst (step cfg s (ReacqTxn b0 r0))).
+Proof.
+  intros I. pose proof I as (W & L & M & G). cbn [step].
+  destruct (alookup r0 (m_flights (get_mgr s b0))) as [[l|l|l rv]|] eqn:Fl; try exact I.
+  rewrite txn_reacquire.
+  destruct (get (s_etcd s) (lease_key cfg r0)) as [x|] eqn:Gk.
+  - destruct (bytes_eqb (kv_val x) b0) eqn:Ev.
+    + destruct ((l =? 0) || lease_live (s_etcd s) l) eqn:Lo; cbn [t_err t_succ t_rev fst].
+      * apply inv_put; try assumption; [now right| |].
+        -- apply get_In in Gk. destruct W as (_ & _ & _ & W3). apply (W3 _ _ (proj1 Gk)).
+        -- intros y A. rewrite Gk in A. inversion A; subst y. now apply bytes_eqb_eq.
+      * apply (inv_flights_update cfg s b0 r0); try assumption.
+        -- intros r N. now apply alookup_aremove_other.
+        -- now rewrite alookup_aremove_same.
+    + cbn [t_err t_succ fst]. apply (inv_flights_update cfg s b0 r0); try assumption.
+      * intros r N. now apply alookup_aremove_other.
+      * now rewrite alookup_aremove_same.
+  - cbn [t_err t_succ fst]. apply (inv_flights_update cfg s b0 r0); try assumption.
+    + intros r N. now apply alookup_aremove_other.
+    + now rewrite alookup_aremove_same.
+Qed.
+
+Lemma session_is_true m l : session_is m l = true <-> m_session m = Some l.
+Proof.
+  unfold session_is. destruct (m_session m) as [l'|]; split; intros H; try discriminate.
+  - f_equal. lia.
+  - inversion H. lia.
+Qed.
+
+Lemma inv_commit cfg s b0 r0 : inv cfg s -> inv cfg (fst (step cfg s (AcqCommitLocal b0 r0))).
+Proof.
+  intros I. pose proof I as (W & L & M & G). cbn [step].
+  destruct (alookup r0 (m_flights (get_mgr s b0))) as [[l|l|l rv]|] eqn:Fl; try exact I.
+  destruct (session_is (get_mgr s b0) l) eqn:Si; cbn [fst].
+  - apply session_is_true in Si. apply inv_update_local; try assumption.
+    + intros r. destruct (bytes_eq_dec r0 r) as [<-|N].
+      * pose proof (L b0 r0) as Lr. lr_fields Lr.
+        constructor; mgr_cbn; rewrite ?alookup_aset_same, ?alookup_aremove_same; lr_auto.
+      * apply (local_r_same cfg _ b0 (get_mgr s b0)); mgr_cbn; try reflexivity; try tauto; [apply L| |].
+        -- now apply alookup_aset_other.
+        -- now apply alookup_aremove_other.
+    + intros S A. apply (M b0). exact A.
+    + now left.
+  - apply (inv_flights_update cfg s b0 r0); try assumption.
+    + intros r N. now apply alookup_aremove_other.
+    + now rewrite alookup_aremove_same.
+Qed.
+
+Lemma inv_rellocal cfg s b0 r0 : inv cfg s -> inv cfg (fst (step cfg s (RelLocal b0 r0))).
+Proof.
+  intros I. pose proof I as (W & L & M & G). cbn [step].
+  destruct (alookup r0 (m_owned (get_mgr s b0))) as [rv|] eqn:Ow; [|exact I]. cbn [fst].
+  apply inv_update_local; try assumption.
+  - intros r. destruct (bytes_eq_dec r0 r) as [<-|N].
+    + pose proof (L b0 r0) as Lr. lr_fields Lr.
+      assert (Nf : alookup r0 (m_flights (get_mgr s b0)) = None).
+      { destruct (alookup r0 (m_flights (get_mgr s b0))) as [f|] eqn:Fl; [|reflexivity].
+        rewrite (o6 f eq_refl) in Ow. discriminate. }
+      constructor; mgr_cbn; rewrite ?alookup_aremove_same, ?Nf; lr_auto.
+      * apply in_app_or in H. destruct H as [H|[H|[]]]; [eapply o3; eauto|].
+        inversion H; subst rev. destruct (o1 _ Ow) as (S & _ & y & Gy & Vy & _).
+        rewrite Gy in H0. inversion H0; subst y. exact Vy.
+      * apply in_app_or in H. destruct H as [H|[H|[]]]; [now apply o8|].
+        inversion H; subst rev. now apply o7.
+    + apply (local_r_same cfg _ b0 (get_mgr s b0)); mgr_cbn; try reflexivity; [apply L| |].
+      * now apply alookup_aremove_other.
+      * intros rev H. apply in_app_or in H. destruct H as [H|[H|[]]]; [assumption|].
+        inversion H. congruence.
+  - intros S A. apply (M b0). exact A.
+  - now left.
+Qed.
+
+Lemma inv_reldelete cfg s b0 r0 :
+  c_guard cfg = true -> inv cfg s -> inv cfg (fst (step cfg s (RelDelete b0 r0))).
+Proof.
+  intros Gd I. pose proof I as (W & L & M & G). cbn [step].
+  destruct (alookup r0 (m_rel (get_mgr s b0))) as [rv|] eqn:Rl; [|exact I]. cbn [fst].
+  rewrite Gd, txn_release.
+  apply alookup_In in Rl.
+  set (m' := mkMgr _ _ _ _ _).
+  assert (Sub : forall r rev, In (r, rev) (m_rel m') -> In (r, rev) (m_rel (get_mgr s b0))).
+  { intros r rev. unfold m'. mgr_cbn. apply In_aremove1. }
+  assert (Same : forall r, local_r cfg (s_etcd s) b0 m' r).
+  { intros r. apply (local_r_same cfg _ b0 (get_mgr s b0)); try reflexivity; [apply L|]. apply Sub. }
+  destruct (get (s_etcd s) (lease_key cfg r0)) as [x|] eqn:Gk.
+  2: { apply inv_update_local; try assumption; [intros S A; apply (M b0); exact A|now left]. }
+  destruct (kv_mod x =? rv) eqn:Em.
+  2: { apply inv_update_local; try assumption; [intros S A; apply (M b0); exact A|now left]. }
+  assert (kv_mod x = rv) as Emod by lia. clear Em.
+  assert (Vx : kv_val x = b0) by (apply (lr_rel_val _ _ _ _ _ (L b0 r0) rv x Rl Gk Emod)).
+  apply inv_update; try assumption.
+  - now apply wf_edel.
+  - intros r. destruct (bytes_eq_dec r0 r) as [<-|N].
+    + pose proof (L b0 r0) as Lr. lr_fields Lr.
+      constructor; unfold m'; mgr_cbn; cbn [edel e_rev e_next_lease]; fold m'.
+      * intros rev A. exfalso. destruct (o1 rev A) as (S & _ & y & Gy & _ & _ & My).
+        rewrite Gk in Gy. inversion Gy; subst y. apply (o4 rv rev Rl A). congruence.
+      * intros S rev A Se. exfalso. destruct (o2 S rev A Se) as (y & Gy & _ & _ & My).
+        rewrite Gk in Gy. inversion Gy; subst y. apply (o5 rv S rev Rl A). congruence.
+      * intros rev y _. rewrite get_edel_same. discriminate.
+      * intros rev rev' A. apply In_aremove1 in A. now apply o4.
+      * intros rev S rev' A. apply In_aremove1 in A. now apply (o5 rev S rev').
+      * assumption.
+      * intros rev A. specialize (o7 rev A). lia.
+      * intros rev A. apply In_aremove1 in A. specialize (o8 rev A). lia.
+      * intros S rev A. specialize (o9 S rev A). lia.
+      * assumption.
+    + apply (local_r_edel cfg _ b0 (get_mgr s b0)); try reflexivity; [apply L|apply Sub|].
+      intros E. apply lease_key_inj in E. congruence.
+  - apply (local_m_mono (s_etcd s)); [apply M|cbn; lia|tauto].
+  - intros b r N. apply (local_r_edel cfg _ b (get_mgr s b)); try reflexivity; try tauto; [apply L|].
+    intros _ y A. rewrite Gk in A. inversion A; subst y. congruence.
+  - intros b N. apply (local_m_mono (s_etcd s)); [apply M|cbn; lia|tauto].
+  - intros b S N A B. apply N. apply (G b b0 S A B).
+Qed.
+
+(* b0's session ends (expiry or ReleaseAll): lease l is revoked, ownership is cleared *)
+Lemma inv_session_end cfg s b0 l closed :
+  inv cfg s -> m_session (get_mgr s b0) = Some l ->
+  inv cfg (mkState (revoke (s_etcd s) l)
+                   (set_mgr s b0 (mkMgr closed None [] (m_flights (get_mgr s b0)) (m_rel (get_mgr s b0))))).
+Proof.
+  intros I Se. pose proof I as (W & L & M & G).
+  apply inv_update; try assumption.
+  - now apply wf_revoke.
+  - intros r. pose proof (L b0 r) as Lr. lr_fields Lr. pose proof (e_rev_revoke (s_etcd s) l) as Rv.
+    constructor; mgr_cbn; rewrite ?e_next_revoke; lr_auto.
+    + apply (o3 rev x H); [|assumption]. revert H0. rewrite get_revoke.
+      destruct (get (s_etcd s) (lease_key cfg r)) as [y|]; [|discriminate].
+      destruct ((kv_lease y =? l) && negb (kv_lease y =? 0)); [discriminate|tauto].
+    + specialize (o8 rev H). lia.
+    + specialize (o9 S rev H). lia.
+  - intros S A. discriminate.
+  - intros b r N. apply (local_r_revoke cfg _ b (get_mgr s b)); try reflexivity; try tauto; [apply L|].
+    intros S A E. subst S. apply N. apply (G b b0 l A Se).
+  - intros b N. apply (local_m_mono (s_etcd s)); [apply M|rewrite e_next_revoke; lia|].
+    intros S A Lv. rewrite lease_live_revoke, Lv. cbn.
+    destruct (S =? l) eqn:E; [|reflexivity]. exfalso. apply N. apply (G b b0 S A). rewrite Se. f_equal. lia.
+  - intros b S N A B. discriminate.
+Qed.
+
+Lemma inv_expire cfg s b0 : inv cfg s -> inv cfg (fst (step cfg s (SessionExpire b0))).
+Proof.
+  intros I. cbn [step]. destruct (m_session (get_mgr s b0)) as [l|] eqn:Se; [|exact I].
+  cbn [fst]. now apply inv_session_end.
+Qed.
+
+Lemma inv_releaseall cfg s b0 : inv cfg s -> inv cfg (fst (step cfg s (ReleaseAll b0))).
+Proof.
+  intros I. cbn [step fst]. destruct (m_session (get_mgr s b0)) as [l|] eqn:Se.
+  - now apply inv_session_end.
+  - pose proof I as (W & L & M & G). apply inv_update_local; try assumption.
+    + intros r. pose proof (L b0 r) as Lr. lr_fields Lr. constructor; mgr_cbn; lr_auto.
+    + intros S A. discriminate.
+    + now right.
+Qed.
+
+Lemma inv_restart cfg s b0 : inv cfg s -> inv cfg (fst (step cfg s (Restart b0))).
+Proof.
+  intros I. cbn [step fst]. pose proof I as (W & L & M & G). apply inv_update_local; try assumption.
+  - intros r. constructor; mgr_cbn; cbn [alookup]; lr_auto; contradiction.
+  - intros S A. discriminate.
+  - now right.
+Qed.
+
+Lemma inv_orphan cfg s l : inv cfg s -> inv cfg (fst (step cfg s (OrphanExpire l))).
+Proof.
+  intros I. cbn [step]. destruct (existsb _ (s_mgrs s)) eqn:Ex; [exact I|]. cbn [fst].
+  pose proof I as (W & L & M & G).
+  assert (Ns : forall b S, m_session (get_mgr s b) = Some S -> S <> l).
+  { intros b S A E. subst S. unfold get_mgr in A.
+    destruct (alookup b (s_mgrs s)) as [m|] eqn:Al; [|discriminate].
+    apply alookup_In in Al. rewrite <- not_true_iff_false in Ex. apply Ex.
+    apply existsb_exists. exists (b, m). split; [assumption|]. now apply session_is_true. }
+  unfold inv. cbn [s_etcd]. split; [now apply wf_revoke|]. split; [|split].
+  - intros b r. change (get_mgr {| s_etcd := revoke (s_etcd s) l; s_mgrs := s_mgrs s |} b) with (get_mgr s b).
+    apply (local_r_revoke cfg _ b (get_mgr s b)); try reflexivity; try tauto; [apply L|apply Ns].
+  - intros b. change (get_mgr {| s_etcd := revoke (s_etcd s) l; s_mgrs := s_mgrs s |} b) with (get_mgr s b).
+    apply (local_m_mono (s_etcd s)); [apply M|rewrite e_next_revoke; lia|].
+    intros S A Lv. rewrite lease_live_revoke, Lv. specialize (Ns b S A).
+    replace (S =? l) with false by lia. reflexivity.
+  - intros b b' S. apply G.
+Qed.
+
+Lemma inv_step cfg s ev :
+  c_guard cfg = true -> inv cfg s -> inv cfg (fst (step cfg s ev)).
+Proof.
+  intros Gd I. destruct ev.
+  - now apply inv_acqbegin.
+  - now apply inv_acqtxn.
+  - now apply inv_reacqtxn.
+  - now apply inv_commit.
+  - now apply inv_rellocal.
+  - now apply inv_reldelete.
+  - now apply inv_expire.
+  - now apply inv_releaseall.
+  - now apply inv_restart.
+  - now apply inv_orphan.
+Qed.
+
+Lemma inv_init cfg : inv cfg init.
+Proof.
+  unfold inv, init. cbn [s_etcd]. split; [|split; [|split]].
+  - unfold wf_etcd, etcd_init, lease_live. cbn. repeat split; try lia; try discriminate; contradiction.
+  - intros b r. unfold get_mgr. cbn. constructor; mgr_cbn; cbn [alookup]; lr_auto; contradiction.
+  - intros b S. unfold get_mgr. cbn. discriminate.
+  - intros b b' S. unfold get_mgr. cbn. discriminate.
+Qed.
+
+Lemma inv_run_from cfg evs : c_guard cfg = true -> forall s, inv cfg s -> inv cfg (run_from cfg s evs).
+Proof.
+  intros Gd. induction evs as [|ev evs IH]; intros s I; [exact I|].
+  cbn [run_from fold_left]. apply IH. now apply inv_step.
+Qed.
+
+Theorem inv_run cfg evs : c_guard cfg = true -> inv cfg (run cfg evs).
+Proof. intros Gd. apply inv_run_from; [assumption|apply inv_init]. Qed.
+
+(* ------------------------------------------------------------------ C18 corollaries *)
+
+Lemma owns_true s b r : owns s b r = true <-> exists rev, alookup r (m_owned (get_mgr s b)) = Some rev.
+Proof.
+  unfold owns. destruct (alookup r (m_owned (get_mgr s b))) as [rev|]; split; intros H;
+    try discriminate; eauto. destruct H as [? H]. discriminate.
+Qed.
+
+Lemma inv_owner_bound cfg s b r :
+  inv cfg s -> owns s b r = true ->
+  exists S rev, m_session (get_mgr s b) = Some S /\ lease_live (s_etcd s) S = true /\
+                bound_by (s_etcd s) (lease_key cfg r) b S rev.
+Proof.
+  intros (W & L & M & G) O. apply owns_true in O. destruct O as [rev O].
+  destruct (lr_owned _ _ _ _ _ (L b r) rev O) as (S & Se & B).
+  exists S, rev. repeat split; try assumption. apply (M b S Se).
+Qed.
+
+Lemma inv_single_owner cfg s b b' r :
+  inv cfg s -> owns s b r = true -> owns s b' r = true -> b = b'.
+Proof.
+  intros I O O'. destruct (inv_owner_bound cfg s b r I O) as (S & rev & _ & _ & x & Gx & Vx & _).
+  destruct (inv_owner_bound cfg s b' r I O') as (S' & rev' & _ & _ & x' & Gx' & Vx' & _).
+  rewrite Gx in Gx'. inversion Gx'; subst x'. congruence.
+Qed.
+
+Theorem single_owner cfg evs b b' r :
+  c_guard cfg = true ->
+  owns (run cfg evs) b r = true -> owns (run cfg evs) b' r = true -> b = b'.
+Proof. intros Gd. apply (inv_single_owner cfg). now apply inv_run. Qed.
+
+Theorem owner_holds_key cfg evs b r :
+  c_guard cfg = true -> owns (run cfg evs) b r = true ->
+  exists S x, m_session (get_mgr (run cfg evs) b) = Some S /\ lease_live (s_etcd (run cfg evs)) S = true /\
+              get (s_etcd (run cfg evs)) (lease_key cfg r) = Some x /\ kv_val x = b /\ kv_lease x = S.
+Proof.
+  intros Gd O. destruct (inv_owner_bound cfg _ b r (inv_run cfg evs Gd) O) as (S & rev & Se & Lv & x & Gx & Vx & Lx & _).
+  exists S, x. tauto.
+Qed.
+
+(* the etcd request of a Release removes nothing but a binding written by the releasing
+   broker that nobody (not even that broker, after a re-acquire) relies on any more *)
+Lemma inv_release_safe cfg s b r :
+  c_guard cfg = true -> inv cfg s ->
+  let s' := fst (step cfg s (RelDelete b r)) in
+  (forall k x, get (s_etcd s) k = Some x -> kv_val x <> b -> get (s_etcd s') k = Some x) /\
+  (forall b' r', owns s b' r' = true ->
+                 get (s_etcd s') (lease_key cfg r') = get (s_etcd s) (lease_key cfg r') /\ owns s' b' r' = true).
+Proof.
+  intros Gd I. pose proof I as (W & L & M & G). cbn zeta. cbn [step].
+  destruct (alookup r (m_rel (get_mgr s b))) as [rv|] eqn:Rl; cbn [fst s_etcd]; [|split; intros; tauto].
+  rewrite Gd, txn_release. apply alookup_In in Rl.
+  assert (Ow : forall b' r' m', owns s b' r' = true ->
+               m_owned m' = m_owned (get_mgr s b) ->
+               owns (mkState (s_etcd s) (set_mgr s b m')) b' r' = true).
+  { intros b' r' m' O E. unfold owns in *. destruct (bytes_eq_dec b' b) as [->|N].
+    - rewrite get_mgr_set_same, E. exact O.
+    - rewrite get_mgr_set_other by assumption. exact O. }
+  destruct (get (s_etcd s) (lease_key cfg r)) as [x0|] eqn:Gk.
+  2: { split; intros; [assumption|]. split; [reflexivity|]. unfold owns in *.
+       destruct (bytes_eq_dec b' b) as [->|N]; [rewrite get_mgr_set_same|rewrite get_mgr_set_other by assumption]; assumption. }
+  destruct (kv_mod x0 =? rv) eqn:Em.
+  2: { split; intros; [assumption|]. split; [reflexivity|]. unfold owns in *.
+       destruct (bytes_eq_dec b' b) as [->|N]; [rewrite get_mgr_set_same|rewrite get_mgr_set_other by assumption]; assumption. }
+  assert (kv_mod x0 = rv) as Emod by lia. clear Em.
+  assert (Vx : kv_val x0 = b) by (apply (lr_rel_val _ _ _ _ _ (L b r) rv x0 Rl Gk Emod)).
+  split.
+  - intros k x A Nv. destruct (bytes_eq_dec (lease_key cfg r) k) as [<-|N].
+    + rewrite Gk in A. inversion A; subst x. contradiction.
+    + now rewrite get_edel_other.
+  - intros b' r' O. split.
+    + destruct (bytes_eq_dec (lease_key cfg r) (lease_key cfg r')) as [E|N]; [|now rewrite get_edel_other].
+      exfalso. apply lease_key_inj in E. subst r'.
+      apply owns_true in O. destruct O as [rev' O].
+      destruct (lr_owned _ _ _ _ _ (L b' r) rev' O) as (S & _ & y & Gy & Vy & _ & My).
+      rewrite Gk in Gy. inversion Gy; subst y.
+      assert (Eb : b' = b) by congruence. rewrite Eb in O.
+      apply (lr_rel_owned _ _ _ _ _ (L b r) rv rev' Rl O). congruence.
+    + unfold owns in *. destruct (bytes_eq_dec b' b) as [->|N];
+        [rewrite get_mgr_set_same|rewrite get_mgr_set_other by assumption]; assumption.
+Qed.
+
+Theorem release_safe cfg evs b r :
+  c_guard cfg = true ->
+  let s := run cfg evs in
+  let s' := fst (step cfg s (RelDelete b r)) in
+  (forall k x, get (s_etcd s) k = Some x -> kv_val x <> b -> get (s_etcd s') k = Some x) /\
+  (forall b' r', owns s b' r' = true ->
+                 get (s_etcd s') (lease_key cfg r') = get (s_etcd s) (lease_key cfg r') /\ owns s' b' r' = true).
+Proof. intros Gd. apply inv_release_safe; [assumption|now apply inv_run]. Qed.
